@@ -18,6 +18,11 @@ def main() -> int:
         os.environ["PYTHONHASHSEED"] = "0"
         os.execv(sys.executable, [sys.executable] + sys.argv)
     sys.path.insert(0, VERIF)
+    alt = os.environ.get("VERIF_REPO")
+    if alt and os.path.isdir(os.path.join(alt, "mypy")):
+        # development aid: run the checks against a scratch worktree (e.g. with a seeded change
+        # applied) without touching /repo; registered commands never set this
+        sys.path.insert(0, alt)
     ap = argparse.ArgumentParser()
     ap.add_argument("prop")
     ap.add_argument("--tier", default=os.environ.get("VERIF_TIER", "quick"))
@@ -31,6 +36,8 @@ def main() -> int:
     print(f"VERIF_SEED={kit.seed()} property={args.prop} tier={args.tier}", flush=True)
     try:
         import mypy  # noqa: F401
+
+        print(f"mypy under test: {os.path.dirname(mypy.__file__)}", flush=True)
 
         mod = importlib.import_module("checks." + args.prop.lower())
         if args.replay:
